@@ -6,6 +6,8 @@ import (
 	"errors"
 	"fmt"
 	"math"
+	"regexp"
+	"strings"
 
 	"github.com/ctessum/geom"
 	"github.com/ctessum/geom/proj"
@@ -18,7 +20,7 @@ import (
 func init() {
 	core.Register(&core.Prop{
 		ID: "C10",
-		Rule: "history phase: case = one pair of spatial references (emphasis on pairs where both sides carry 3-/7-parameter datums other than WGS84 — the intermediate WGS84 hop — and on sources/destinations with non-default +axis strings, plus ordinary pairs) with transformers T: S->D, T': D->S and T'': S->registered WGS84 built once, then driven through a random history of 2-40 interleaved calls on tagged inputs (repeats included); oracle for every call = a transformer built from freshly parsed copies of the same definitions and used once (agreement within 4 ulp, same error/no-error outcome, no panic); " +
+		Rule: "history phase: case = one pair of spatial references (emphasis on pairs where both sides carry 3-/7-parameter datums other than WGS84 — the intermediate WGS84 hop — and on sources/destinations with non-default +axis strings, plus ordinary pairs; in 12% of the pairs one side parses but cannot be set up - an unimplemented projection or utm without zone - so that every call fails) with transformers T: S->D, T': D->S and T'': S->registered WGS84 built once, then driven through a random history of 2-40 interleaved calls on tagged inputs (repeats included); oracle for every call = a transformer built from freshly parsed copies of the same definitions and used once (agreement within 4 ulp, same error/no-error outcome, no panic); " +
 			"structure phase: case = one geometry of the 8 types (empty members included) transformed with an instrumented affine transformer (type/nesting preserved, *Bounds -> 4-vertex polygon in corner order, vertex i == t(vertex i) bitwise, input untouched), with nil (identity), with a transformer failing on its k-th call for every k <= Len (exactly that error, no panic) and with a real datum-shifting transformer compared vertex by vertex with fresh single-use transformers; " +
 			"an evaluation is one transformer call or one Transform call judged; non-trivial = history with >= 2 calls through a hop pair, or geometry with >= 2 vertices; distinct by content hash",
 		Assumptions: []string{"concurrent use of one transformer is not claimed (the property quantifies over histories, not schedules)", "4-ulp slack so that harmless refactors (cached constants) do not alarm"},
@@ -38,7 +40,7 @@ func init() {
 		},
 		Run: run,
 		Floors: func(t string) map[string]int64 {
-			return map[string]int64{"pair.hop": 500, "pair.axis": 300, "pair.ordinary": 300, "history.calls": 20000, "history.repeat_call": 2000, "history.to_registered_wgs84": 1000, "history.failing_input": 1000,
+			return map[string]int64{"pair.hop": 500, "pair.axis": 300, "pair.ordinary": 300, "history.calls": 20000, "history.repeat_call": 2000, "history.to_registered_wgs84": 1000, "history.failing_input": 1000, "pair.one_side_cannot_be_set_up": 100,
 				"structure.failing_k": 10000, "structure.nil_transformer": 1000, "structure.real_transformer": 1000, "structure.*Bounds": 100, "structure.GeometryCollection": 100, "structure.MultiPolygon": 100, "structure.MultiLineString": 100}
 		},
 	})
@@ -164,6 +166,29 @@ func runHistory(c *core.Ctx) {
 	}
 	c.Count("pair." + class)
 	S, D := sdef.String(), ddef.String()
+	if r.Chance(0.12) {
+		// one side whose definition parses but whose projection cannot be set up (a projection
+		// the port does not implement, utm without a zone): every call fails, the first one and
+		// each later one alike
+		broken := func(def string) string {
+			var b string
+			if strings.Contains(def, "+proj=utm") && r.Bool() {
+				b = projZone.ReplaceAllString(def, "")
+			} else {
+				b = projName.ReplaceAllString(def, "+proj="+[]string{"laea", "stere", "gnom", "robin"}[r.Intn(4)])
+			}
+			if _, err := proj.Parse(b); err != nil {
+				return def
+			}
+			return b
+		}
+		if r.Chance(0.7) {
+			D = broken(D)
+		} else {
+			S = broken(S)
+		}
+		c.Count("pair.one_side_cannot_be_set_up")
+	}
 	detail := map[string]interface{}{"S": S, "D": D, "class": class}
 	// build the three shared transformers once
 	var T, Tr, Tw proj.Transformer
@@ -286,6 +311,11 @@ func minInt(a, b int) int {
 	}
 	return b
 }
+
+var (
+	projName = regexp.MustCompile(`\+proj=[a-z_0-9]+`)
+	projZone = regexp.MustCompile(` *\+zone=[0-9]+`)
+)
 
 var errSentinel = errors.New("verif: transformer failure on the chosen vertex")
 
